@@ -52,6 +52,8 @@ func (s *Sender) Run(ctx context.Context) {
 				if stream == nil {
 					sink = s.Sink
 				} else {
+					// A stream is being held, don't accept another one until it is done
+					sink = nil
 					streamCancel = stream.Ctx.Done()
 				}
 				select {
